@@ -10,9 +10,10 @@
 open Model
 open Vutil
 
-(* the model mirrors the repaired code (fixes/C21-vote-number-unchecked, C21-precommit-cap-wrong-fork):
-   validateVote compares vote.Number with the header, determinePreCommit resolves the cap on the
-   chain of the pre-voted block.  VERIF_C21_PREFIX=1 (debugging only) mirrors the pinned code. *)
+(* the model mirrors the repaired code (fixes/C21-vote-number-unchecked, C21-precommit-cap-wrong-fork,
+   C21-ghost-misses-unvoted-fork-point): validateVote compares vote.Number with the header,
+   determinePreCommit resolves the cap on the chain of the pre-voted block, getPossibleSelectedBlocks
+   has the pairwise pass.  VERIF_C21_PREFIX=1 (debugging only) mirrors the first two as pinned. *)
 let repaired = (Sys.getenv_opt "VERIF_C21_PREFIX" <> Some "1")
 let check_number = repaired
 
@@ -116,7 +117,7 @@ let check inp obs =
              (match parse_gv ob with
               | Some r ->
                 if not (precommit_ok e !st capped r) then
-                  fail_prop (if ghost_missed_guard e !st then "ghost-misses-unvoted-fork-point" else "-") (Printf.sprintf "op %d (%s): answer %s is not the %s (spec ghost %s)" i op ob
+                  fail_prop "-" (Printf.sprintf "op %d (%s): answer %s is not the %s (spec ghost %s)" i op ob
                                    (if capped then "capped target" else "prevote ghost") (hex_of_nat g))
               | None ->
                 (* an error although a target exists: only legitimate when the cap cannot be resolved *)
